@@ -39,6 +39,10 @@ def rmap(func, data):
     """
     if isinstance(data, Mapping):
         return {key: rmap(func, value) for key, value in data.items()}
+    if hasattr(data, "shape") and hasattr(data, "tolist"):  # numpy arrays
+        import numpy
+        flat = [rmap(func, elem) for elem in data.flatten().tolist()]
+        return numpy.array(flat, dtype=object).reshape(data.shape)
     if isinstance(data, Iterable):
         return type(data)([rmap(func, elem) for elem in data])
     return func(data)
@@ -562,9 +566,10 @@ class Box(Arrow):
         if not any(x in self.free_symbols for x in symbols):
             return lambda *xs: self
         from sympy import lambdify
+        data = self.data.tolist() if hasattr(self.data, "tolist") else self.data
         return lambda *xs: type(self)(
             self.name, self.dom, self.cod, _dagger=self._dagger,
-            data=lambdify(symbols, self.data, **kwargs)(*xs))
+            data=lambdify(symbols, data, **kwargs)(*xs))
 
     @property
     def is_dagger(self):
